@@ -49,8 +49,11 @@ Alphabet(f) ==
   IF f \in {"network", "dirnetwork"} THEN NetMut \cup SameMut \cup {<<"randomly_rewire", 3>>}
   ELSE IF f = "interacting" THEN NetMut
   ELSE IF f = "visibility" THEN {m \in NetMut : m[1] \in {"node_weights", "set_link_attribute", "del_link_attribute"}}
+  \* (the geographical rewirings and the distance-kernel model change the graph in place: token 3)
   ELSE IF f = "geonetwork" THEN NetMut \cup {<<"set_node_weight_type", 0>>, <<"set_node_weight_type", 1>>,
-                                             <<"set_node_weight_type", 2>>}
+                                             <<"set_node_weight_type", 2>>, <<"randomly_rewire", 3>>,
+                                             <<"randomly_rewire_geomodel_I", 3>>, <<"randomly_rewire_geomodel_II", 3>>,
+                                             <<"set_random_links_by_distance", 3>>}
   ELSE IF f = "resnetwork" THEN {<<"update_resistances", 1>>, <<"update_resistances", 2>>,
                                  <<"update_resistances~same", 1>>, <<"update_resistances~same", 2>>}
   ELSE IF f \in {"rp", "rn"} THEN RpMut \cup {<<"set_fixed_threshold_std", 1>>, <<"set_fixed_threshold_std", 2>>,
@@ -78,7 +81,8 @@ Alphabet(f) ==
 
 Apply(f, a, m) ==
   LET name == m[1]  v == m[2] IN
-  IF name \in {"adjacency", "set_edge_list", "adjacency~same", "randomly_rewire"} THEN [a EXCEPT !.A = v, !.LA = 0]     \* a new graph has no attributes
+  IF name \in {"adjacency", "set_edge_list", "adjacency~same", "randomly_rewire", "randomly_rewire_geomodel_I",
+               "randomly_rewire_geomodel_II", "randomly_rewire_geomodel_III", "set_random_links_by_distance"} THEN [a EXCEPT !.A = v, !.LA = 0]     \* a new graph has no attributes
   ELSE IF name \in {"node_weights", "node_weights~same", "node_weights~getset"} THEN [a EXCEPT !.W = v]
   ELSE IF name \in {"set_link_attribute", "set_link_attribute~same"} THEN [a EXCEPT !.LA = v]
   ELSE IF name = "del_link_attribute" THEN [a EXCEPT !.LA = 0]
@@ -108,8 +112,12 @@ Init == abs = Init0(Family) /\ hist = <<>>
 \* data-driven climate networks keep the THRESHOLD when the similarity is recomputed (a prescribed density
 \* is turned into a threshold when it is set), so the similarity-changing setters are driven from
 \* threshold mode only - there the abstract state determines the network
-Enabled(f, a, m) == (f \in {"tsonis", "hilbert", "spearman", "partialcorr", "mutualinfo", "havlin"}
-                     /\ m[1] \in {"set_winter_only", "set_directed", "set_max_delay"}) => a.MODE = "threshold"
+\* the geographical rewirings loop until they have found the requested number of admissible swaps: they are
+\* driven on the two fixture graphs only, where a swap exists (model III, which also needs equal degrees, is
+\* left to C17)
+Enabled(f, a, m) == /\ (f \in {"tsonis", "hilbert", "spearman", "partialcorr", "mutualinfo", "havlin"}
+                        /\ m[1] \in {"set_winter_only", "set_directed", "set_max_delay"}) => a.MODE = "threshold"
+                    /\ m[1] \in {"randomly_rewire_geomodel_I", "randomly_rewire_geomodel_II"} => a.A \in {1, 2}
 Mutate(m) == Len(hist) < Depth /\ Enabled(Family, abs, m) /\ abs' = Apply(Family, abs, m) /\ hist' = Append(hist, m)
 Next == \E m \in Alphabet(Family) : Mutate(m)
 \* every reachable history is a behaviour to be replayed (printed once per distinct history)
